@@ -99,6 +99,11 @@ def c02 : List String → Option String
       let mq ← parseOptNat? mq; let n ← parseNat? n; let S ← parseMat? S; let s ← parseBits? s
       pure (match naiveDecodeFull mq n S s with
         | .valueError => "ValueError" | .pyNone => "None" | .recovery r => "ok " ++ showBits r)
+  | ["naiveall", mq, n, S, ss] => do
+      let mq ← parseOptNat? mq; let n ← parseNat? n; let S ← parseMat? S
+      let ss ← (ss.splitOn ";").mapM parseBits?
+      pure (";".intercalate ((naiveDecodeFullAll mq n S ss).map fun o => match o with
+        | .valueError => "ValueError" | .pyNone => "None" | .recovery r => "ok " ++ showBits r))
   | _ => none
 
 end Qec.Drv
